@@ -308,14 +308,19 @@ def refract(n, nprime, S, r):
     """
     mu = n/nprime
     musq = mu * mu
-    cosI = _multi_dot(r, S)
-    cosIsq = cosI * cosI
+    # r is the surface gradient (-Fx, -Fy, 1), which is only of unit length where
+    # the surface is flat.  As in reflect, the normalization is folded into the
+    # formula: with rnorm = r.r and rdotS = r.S = |r| cosI,
+    # S' = sqrt(rnorm - mu^2 (rnorm - rdotS^2)) / rnorm * r + mu * (S - rdotS/rnorm * r)
+    # which is Spencer & Murty's expression when rnorm = 1 and costs no extra sqrt
+    rnorm = _multi_dot(r, r)
+    rdotS = _multi_dot(r, S)
     # the inline newaxis-es are terrible for readability, but serve a performance purpose
     # broadcast the square root to 2D, so that fewer very expensive sqrt ops are done
-    # then, in the second term, broadcast cosI for compatability with S and r
+    # then, in the second term, broadcast rdotS for compatability with S and r
     # since it is needed there
-    first_term = np.sqrt(1 - musq * (1 - cosIsq))[:, np.newaxis] * r
-    second_term = mu * (S - cosI[:, np.newaxis] * r)
+    first_term = (np.sqrt(rnorm - musq * (rnorm - rdotS * rdotS)) / rnorm)[:, np.newaxis] * r
+    second_term = mu * (S - (rdotS / rnorm)[:, np.newaxis] * r)
     return first_term + second_term
 
 
